@@ -22,6 +22,10 @@ AS_BUILT_DEV = frozenset({"LatePrivate", "ProtectedSlot"})
 NAMES = frozenset({"e1", "e2"})
 
 
+OPEQ = {"e1": "operator(==)", "e2": "assignment(=)", "e3": "operator(/=)"}
+OPEQ_BACK = {v: k for k, v in OPEQ.items()}
+
+
 # ---------------------------------------------------------------- rendering
 def _kw(s, up):
     return s.upper() if up else s
@@ -34,7 +38,7 @@ def render(mode, prog, spelling, context):
     kind_of = {x["name"]: x.get("kind", x["s"]) for x in prog if x["s"] in ("decl", "comp", "bind")}
 
     def accname(n):
-        nn = f"operator(.{n}.)" if kind_of.get(n) == "operator" else n
+        nn = f"operator(.{n}.)" if kind_of.get(n) == "operator" else (OPEQ[n] if kind_of.get(n) == "opeq" else n)
         return nn.upper() if up else nn
 
     def attr(a):
@@ -42,6 +46,7 @@ def render(mode, prog, spelling, context):
 
     spec, procs = [], []
     need_iface = False
+    need_opnd = False
     for x in prog:
         s = x["s"]
         if s == "bare":
@@ -71,6 +76,18 @@ def render(mode, prog, spelling, context):
                 spec += [f"{_kw('interface operator', up)}(.{n}.)", f"  {_kw('module procedure', up)} {n}_impl", f"{_kw('end interface', up)}"]
                 procs += [f"function {n}_impl(a, b) result(r)", "  integer, intent(in) :: a, b", "  integer :: r", "  r = a + b",
                           f"end function {n}_impl"]
+            elif k == "opeq":
+                spec += [f"{_kw('interface', up)} {OPEQ[n]}", f"  {_kw('module procedure', up)} {n}_impl", f"{_kw('end interface', up)}"]
+                if OPEQ[n].startswith("assignment"):
+                    procs += [f"subroutine {n}_impl(a, b)", "  type(opnd), intent(out) :: a", "  integer, intent(in) :: b", "  a%v = b", f"end subroutine {n}_impl"]
+                else:
+                    procs += [f"function {n}_impl(a, b) result(r)", "  type(opnd), intent(in) :: a, b", "  logical :: r", "  r = a%v > b%v", f"end function {n}_impl"]
+                need_opnd = True
+            elif k == "ctype":
+                tn = n.capitalize() if up else n          # the type's name has an upper-case letter in the second spelling
+                spec += [f"{_kw('type', up)}{attr(a)} :: {tn}", f"  integer :: c_{n}", f"{_kw('end type', up)} {tn}",
+                         f"{_kw('interface', up)} {tn}", f"  {_kw('module procedure', up)} {n}_make", f"{_kw('end interface', up)} {tn}"]
+                procs += [f"function {n}_make(v) result(t)", "  real, intent(in) :: v", f"  type({tn}) :: t", f"  t%c_{n} = int(v)", f"end function {n}_make"]
             elif k == "absint":
                 spec += [f"{_kw('abstract interface', up)}", f"  {_kw('subroutine', up)} {n}()", f"  {_kw('end subroutine', up)} {n}",
                          f"{_kw('end interface', up)}"]
@@ -116,6 +133,8 @@ def render(mode, prog, spelling, context):
     else:
         lines += [_kw("module", up) + " m", "  implicit none"]
         unit_end = _kw("end module", up) + " m"
+    if need_opnd:
+        lines += ["  type :: opnd", "    integer :: v", "  end type opnd"]
     lines += ["  " + s for s in spec]
     if procs or mode == "submodule":
         lines.append(_kw("contains", up))
@@ -153,7 +172,10 @@ def observe(mode, text):
         for e in getattr(unit, coll, []):
             n = e.name.lower()
             m = re.fullmatch(r"operator\(\.(\w+)\.\)", n)
-            obs[m.group(1) if m else n] = e.permission
+            key = m.group(1) if m else OPEQ_BACK.get(n.replace(" ", ""), n)
+            if coll == "interfaces" and key in obs and any(t.name.lower() == key for t in unit.types):
+                key = key + "_ctor"              # the constructor interface of a type of the same name
+            obs[key] = e.permission
             if coll == "interfaces":
                 for pr in list(getattr(e, "subroutines", []) or []) + list(getattr(e, "functions", []) or []):
                     obs[pr.name.lower()] = pr.permission          # specific procedures declared by interface bodies
@@ -187,6 +209,8 @@ def judge(case, results, ck: Check):
             continue
         for n, allowed in ref.items():
             names = [n, n + "_2"] if any(x["s"] == "bind" and x["name"] == n and x["form"] == "multi" for x in case["prog"]) else [n]
+            if any(x["s"] == "decl" and x["name"] == n and x["kind"] == "ctype" for x in case["prog"]):
+                names = [n, n + "_ctor"]
             for nm in names:
                 got = obs.get(nm)
                 if got in allowed:
